@@ -35,6 +35,7 @@ def main():
     ap.add_argument('--tier', default='quick')
     ap.add_argument('--skip-suite', action='store_true')
     ap.add_argument('--skip-demo', action='store_true')
+    ap.add_argument('--scratch', action='store_true', help='apply the patch in a scratch worktree and point the checks at it (BUBUS_REPO); /repo is not touched')
     a = ap.parse_args()
     wt = a.wt
     seed = os.path.join(wt, '_seed')
@@ -69,29 +70,48 @@ def main():
             print('suite:', meta['suite_with_change'])
     patch = os.path.join(dest, 'patch.diff')
     checks = (a.checks or a.prop).split(',')
-    rc, out = sh('git -C /repo status --porcelain')
-    if out.strip():
-        print('REFUSING: /repo has uncommitted changes')
-        return 2
-    rc, out = sh('git -C /repo apply %s' % patch)
-    if rc != 0:
-        print('patch does not apply to /repo:', out)
-        return 2
     results = {}
-    try:
-        for c in checks:
-            t0 = time.time()
-            rc, out = sh('bin/check %s --tier %s' % (c, a.tier), cwd=VERIF, timeout=7200)
-            lines = [l for l in out.splitlines() if l.startswith(('VIOLATION', 'MACHINERY', 'MODEL-DRIFT', 'KNOWN-FINDING')) or l.startswith('  witnesses')]
-            results[c] = {'rc': rc, 'wall_s': round(time.time() - t0, 1), 'lines': [l[:400] for l in lines[:12]]}
-            print('check %s rc=%d (%.0fs)' % (c, rc, time.time() - t0))
-            for l in lines[:8]:
-                print('   ', l[:300])
-    finally:
-        sh('git -C /repo checkout -- .')
+    if a.scratch:
+        scratch = '/tmp/seedwt_%s_%d' % (a.seed_id.replace('/', '_'), os.getpid())
+        sh('git -C /repo worktree add -q --detach %s HEAD' % scratch)
+        try:
+            rc, out = sh('git -C %s apply %s' % (scratch, patch))
+            if rc != 0:
+                print('patch does not apply:', out)
+                return 2
+            for c in checks:
+                t0 = time.time()
+                rc, out = sh('bin/check %s --tier %s' % (c, a.tier), cwd=VERIF, timeout=7200,
+                             env={'BUBUS_REPO': scratch, 'VERIF_WORK': os.path.join(VERIF, '.work', 'seed_' + a.seed_id), 'VERIF_NO_EVIDENCE': '1'})
+                lines = [l for l in out.splitlines() if l.startswith(('VIOLATION', 'MACHINERY', 'MODEL-DRIFT', 'KNOWN-FINDING')) or l.startswith('  witnesses')]
+                results[c] = {'rc': rc, 'wall_s': round(time.time() - t0, 1), 'lines': [l[:400] for l in lines[:12]]}
+                print('check %s rc=%d (%.0fs)' % (c, rc, time.time() - t0))
+        finally:
+            sh('git -C /repo worktree remove --force %s' % scratch)
+            sh('rm -rf %s' % os.path.join(VERIF, '.work', 'seed_' + a.seed_id))
+    else:
         rc, out = sh('git -C /repo status --porcelain')
         if out.strip():
-            print('WARNING: /repo not clean after restore:', out)
+            print('REFUSING: /repo has uncommitted changes')
+            return 2
+        rc, out = sh('git -C /repo apply %s' % patch)
+        if rc != 0:
+            print('patch does not apply to /repo:', out)
+            return 2
+        try:
+            for c in checks:
+                t0 = time.time()
+                rc, out = sh('bin/check %s --tier %s' % (c, a.tier), cwd=VERIF, timeout=7200)
+                lines = [l for l in out.splitlines() if l.startswith(('VIOLATION', 'MACHINERY', 'MODEL-DRIFT', 'KNOWN-FINDING')) or l.startswith('  witnesses')]
+                results[c] = {'rc': rc, 'wall_s': round(time.time() - t0, 1), 'lines': [l[:400] for l in lines[:12]]}
+                print('check %s rc=%d (%.0fs)' % (c, rc, time.time() - t0))
+                for l in lines[:8]:
+                    print('   ', l[:300])
+        finally:
+            sh('git -C /repo checkout -- .')
+            rc, out = sh('git -C /repo status --porcelain')
+            if out.strip():
+                print('WARNING: /repo not clean after restore:', out)
     meta['checks'] = results
     meta['detected_by'] = sorted(c for c, r in results.items() if r['rc'] == 1)
     meta['ran'].append('git -C /repo apply patch.diff; bin/check {%s} --tier %s; git -C /repo checkout -- .' % (','.join(checks), a.tier))
